@@ -7,7 +7,7 @@ ID = 'C13'
 HARNESSES = ['h_c01.cpp', 'h_load.cpp', 'h_hist.cpp', 'h_c06.cpp', 'h_c09.cpp', 'h_c11.cpp']
 LEVEL = 'model_checking'
 BUDGET = {'quick': 290, 'thorough': 6000}
-BOUNDS = {'quick': 'union of: C01 build->write->load configurations, C04 load->save->load->save on every C02 layout variant, all API histories of depth 2 from 4 start states ending with print(), write, reload and destruction, C06/C08 frame-store families, C09 tree edits, C11 look-ups with free indices and names, C14 double saves; monitored on every path: out-of-bounds and use-after-free at object granularity (4 KiB red zones, no address reuse), invalid/double free, allocator mismatch (new[] vs delete), libstdc++ container assertions (index, empty front/back, null shared_ptr), calls through dead objects',
+BOUNDS = {'quick': 'load-then-print of a file whose header event count / key-label words are free 16-bit values; union of: C01 build->write->load configurations, C04 load->save->load->save on every C02 layout variant, all API histories of depth 2 from 4 start states ending with print(), write, reload and destruction, C06/C08 frame-store families, C09 tree edits, C11 look-ups with free indices and names, C14 double saves; monitored on every path: out-of-bounds and use-after-free at object granularity (4 KiB red zones, no address reuse), invalid/double free, allocator mismatch (new[] vs delete), libstdc++ container assertions (index, empty front/back, null shared_ptr), calls through dead objects',
           'thorough': 'the thorough sets of the same families; histories of depth 2 from all six start states with the print+save+reload epilogue, and of depth 3 without it'}
 OUTSIDE = 'damaged input files (C16); leaks are counted, not failed on; uninitialised reads that are not observable (C14/C19 judge observable ones)'
 ASSUMPTIONS = ['-D_GLIBCXX_ASSERTIONS turns libstdc++ precondition violations (operator[] out of range, front() on empty, * on null shared_ptr) into calls the executor sees; they do not change valid executions']
@@ -41,6 +41,9 @@ def jobs(tier, seed):
     for j in c09.jobs(tier, seed):
         if j['name'] == 'tree' and (tier != 'quick' or j['forced'][0] in (0, 2, 7)): out.append(dict(j, family='tree-edits'))      # (quick: add with a free name, new group, own parameter into a new group; the rest is C09's daily run)
     for j in c11.jobs(tier, seed): out.append(dict(j, family='look-ups'))
+    # a loaded object is printed whatever its header declares: the header words the printer may use as bounds are FREE (event count, key-label words)
+    for nm, offs in (('header.nb_events', [300, 301]), ('header.key_label', [294, 295]), ('header.first_block_key_label', [296, 297]), ('header.four_char', [298, 299])):
+        out.append({'entry': 'h_load_print', 'harness': 'h_load.cpp', 'name': 'load-print', 'family': 'load-print', 'field': nm, 'offs': offs, 'cfg': {}})
     for j in c14.jobs(tier, seed):
         if j['name'] == 'api-built' and j['cfg']['P'] == 2: out.append(dict(j, family='double-save'))
     return out
@@ -53,6 +56,11 @@ def run_job(engine, job):
         S, c, lay, cells = c02.build_file(job); files = {'in.c3d': gen.to_engine_cells(cells)}; assume = S.cons
     elif fam == 'history' and job['cfg'].get('start') in (3, 4, 5, 6, 8):
         S, cells = histcommon.start_file(fewer=job['cfg']['start'] == 4, empty_analog=job['cfg']['start'] == 5, deviating_lists=job['cfg']['start'] == 6, pad3=job['cfg']['start'] == 8); files = {'in.c3d': gen.to_engine_cells(cells)}; assume = S.cons
+    elif fam == 'load-print':
+        from . import c16
+        cells = list(c16.base_file('full'))
+        for o in job['offs']: cells[o] = z3.BitVec('b%d' % o, 8)
+        files = {'in.c3d': gen.to_engine_cells(cells)}
     elif fam == 'tree-edits' and job['cfg'].get('start') == 2:
         S, cells = c09.dup_group_file(); files = {'in.c3d': gen.to_engine_cells(cells)}; assume = S.cons
     elif fam == 'tree-edits' and job['cfg'].get('start') == 1:
